@@ -448,8 +448,11 @@ PROPS = {
         "rule": "for sample protected values of each kind: bit flips (sampled; exhaustive for the first samples in the thorough tier), truncations, extensions, every header field x boundary values (0, small, exact+-1, 2^31, 2^63+-1, 2^64-k), envelope-id/type bytes, splices of two values, swapped/flipped search hashes; at every reveal entry point; each call replayed on the model",
     },
     "C01": {
-        "domains": [dom("c01", "Model.RunEnvelope", 60, 1200)],
-        "trusted": ["modelled, not verified: the gRPC/HTTP framing around TranslatorService; key lookup by client id (C02/C06)"],
+        "properties": ["C01", "C01_old"],
+        "domains": [dom("c01", "Model.RunEnvelope", 60, 1200),
+                    dom("c01old", "Model.RunEnvelopeOld", 45, 1500)],
+        "trusted": ["modelled, not verified: the gRPC/HTTP framing around TranslatorService; key lookup by client id (C02/C06)",
+                    "legacy column path (C01_old): the detector's callback list is [wrapper; DecryptHandler(RegistryHandler)] as both proxy factories build it without a poison recogniser (C15) and without the masking processor (C11); ProcessAcraBlocks is modelled as a pure function, its aliased-buffer call is justified by C01_old_wrapper_never_grows + C01_old_aliasing_sound and replayed on the in-place model; ReEncryptHandler settings are the three booleans it reads"],
         "assumptions": ["Correct C (Themis seal/wrap round-trip and length laws) as an explicit premise of every theorem",
                         "plaintext length < 2^32-1024 (Themis' 32-bit length field)"],
     },
